@@ -1476,6 +1476,8 @@ func (in *Interp) builtin(fr *Frame, x *ssa.Call, b *ssa.Builtin, args []*Term, 
 		return Op("copy", "", types.Typ[types.Int], args...)
 	case "print", "println":
 		return nil
+	case "ssa:wrapnilchk":
+		return args[0]
 	case "delete":
 		in.Emit(fr, "mapdelete", x, "delete", args, nil)
 		return nil
